@@ -9,8 +9,8 @@ import anyio
 
 from ..explore import E1Check
 
-ACTIONS = ("cancel", "none", "sync", "async", "sync-raise", "async-raise", "sync-base", "sync-aw", "obj", "partial", "method", "partial-obj")
-# obj / partial / method: the "given callable" need not be a function - an instance with __call__, a functools.partial, a bound method
+ACTIONS = ("cancel", "none", "sync", "async", "sync-raise", "async-raise", "sync-base", "sync-aw", "obj", "partial", "method", "partial-obj", "falsy-obj")
+# falsy-obj: a callable object that is falsy; obj / partial / method: the "given callable" need not be a function - an instance with __call__, a functools.partial, a bound method
 BODIES = ("gate-end", "stop-event", "shielded", "crash", "forever", "crash0", "crash-oc")  # crash-oc: raises when it is cancelled (no own teardown); crash0: crashes, and its own context has no asynchronous teardown
 
 
@@ -43,7 +43,7 @@ def valid(action: str, body: str) -> bool:
         return body == "gate-end"
     if action in ("sync", "async"):
         return body in ("stop-event", "gate-end")  # gate-end: the task may have ended by itself before the teardown; the callable is still called
-    if action in ("sync-aw", "obj", "partial", "method", "partial-obj"):
+    if action in ("sync-aw", "obj", "partial", "method", "partial-obj", "falsy-obj"):
         return body == "stop-event"
     # raising callables fall back to cancellation
     return body in ("stop-event", "shielded")
@@ -209,7 +209,7 @@ class C08(E1Check):
 
                 def ta() -> Any:  # type: ignore[misc]
                     return _stop()  # a plain callable that returns an awaitable
-            elif action in ("obj", "partial", "method", "partial-obj"):
+            elif action in ("obj", "partial", "method", "partial-obj", "falsy-obj"):
                 class Stopper:
                     def __call__(self) -> None:
                         log("action", label)
@@ -219,9 +219,13 @@ class C08(E1Check):
                         log("action", label)
                         stop.set()
 
+                class FalsyStopper(Stopper):
+                    def __bool__(self) -> bool:
+                        return False  # (e.g. a stop flag that reports whether stop has been requested yet)
+
                 import functools
 
-                ta = (Stopper() if action == "obj" else functools.partial(Stopper().stop_it, 1) if action == "partial"
+                ta = (Stopper() if action == "obj" else FalsyStopper() if action == "falsy-obj" else functools.partial(Stopper().stop_it, 1) if action == "partial"
                       else functools.partial(Stopper()) if action == "partial-obj" else Stopper().stop_it)
             elif action == "sync-raise":
                 def ta() -> None:  # type: ignore[misc]
